@@ -476,6 +476,14 @@ let run_pstr (c : case) =
                       (int_of_nat (psize pn x)))
             | Ok None -> line "E"
             | _ -> pr "%d r=P\n" i; raise Exit)
+         | ["rw"] ->
+           h := None;
+           (match from_bytes pn !buf with
+            | Ok (Some x) -> let pl = payload pn x in
+              h := Some x;
+              line (Printf.sprintf "O%s:%d" (hex_or_dash pl) (int_of_nat (psize pn x)))
+            | Ok None -> line "E"
+            | _ -> pr "%d r=P\n" i; raise Exit)
          | ["setbuf"; hx] ->
            h := None;
            let a = bytes_of_hex hx in
